@@ -9,6 +9,7 @@
 #include "oscmsg.hpp"
 #include "vguard.hpp"
 #include <algorithm>
+#include <memory>
 
 static size_t build_a(const AMsg &m, char *buf, size_t cap) {
     auto ra = amsg_args(m);
@@ -84,6 +85,7 @@ static void do_cap(const AMsg &m, FILE *out) {
         std::string which[3] = {"a", "v", "av"};
         for (int c = 0; c < 3; ++c) {
             if (c == 2 && m.has_brackets()) continue;
+            if (c == 1 && !amsg_va_slots(m).faithful) continue;
             std::vector<long long> rets; std::vector<int> zero, eq, guard, asan;
             for (size_t cap = 0; cap <= need + 8; ++cap) {
                 FlushBuf fb(cap + 8); memset(fb.p, 0xA5, cap + 8);      // 8 explicit guard bytes, then the poisoned red zone
@@ -101,11 +103,103 @@ static void do_cap(const AMsg &m, FILE *out) {
             w.key(("guard_" + which[c]).c_str()).arr(); for (auto x : guard) w.boolean(x); w.end_arr();
             w.key(("asan_" + which[c]).c_str()).arr(); for (auto x : asan) w.num(x); w.end_arr();
         }
-        w.kbool("av_done", !m.has_brackets());
+        w.kbool("av_done", !m.has_brackets()).kbool("v_done", amsg_va_slots(m).faithful);
     });
     if (sig) { JW e; e.obj().kstr("k", "cap"); amsg_to_json(e, m); e.knum("sig", sig).kstr("asan_what", vg_asan_first).end_obj(); fprintf(out, "%s\n", e.s.c_str()); return; }
     w.knum("sig", 0).kstr("asan_what", vg_asan_first).end_obj();
     fprintf(out, "%s\n", w.s.c_str());
+}
+
+// ---------------------------------------------------------------- C08 (+ bundle half of C02)
+struct AElem { bool is_msg; AMsg m; uint64_t tt = 0; std::vector<AElem> kids; };
+static AElem elem_from_json(const J &j) {
+    AElem e; e.is_msg = j["k"].s == "m";
+    if (e.is_msg) e.m = amsg_from_json(j); else { e.tt = from_limbs64(j["tt"]); for (auto &k : j["elems"].a) e.kids.push_back(elem_from_json(k)); }
+    return e;
+}
+static void elem_to_json(JW &w, const AElem &e) {
+    w.obj();
+    if (e.is_msg) { w.kstr("k", "m"); amsg_to_json(w, e.m); }
+    else { w.kstr("k", "b").key("tt").limbs64(e.tt); w.key("elems").arr(); for (auto &k : e.kids) elem_to_json(w, k); w.end_arr(); }
+    w.end_obj();
+}
+static size_t call_bundle(char *buf, size_t cap, uint64_t tt, const std::vector<const char *> &p) {
+    switch (p.size()) {
+        case 0: return rtosc_bundle(buf, cap, tt, 0);
+        case 1: return rtosc_bundle(buf, cap, tt, 1, p[0]);
+        case 2: return rtosc_bundle(buf, cap, tt, 2, p[0], p[1]);
+        case 3: return rtosc_bundle(buf, cap, tt, 3, p[0], p[1], p[2]);
+        case 4: return rtosc_bundle(buf, cap, tt, 4, p[0], p[1], p[2], p[3]);
+        case 5: return rtosc_bundle(buf, cap, tt, 5, p[0], p[1], p[2], p[3], p[4]);
+        case 6: return rtosc_bundle(buf, cap, tt, 6, p[0], p[1], p[2], p[3], p[4], p[5]);
+        case 7: return rtosc_bundle(buf, cap, tt, 7, p[0], p[1], p[2], p[3], p[4], p[5], p[6]);
+        default: return rtosc_bundle(buf, cap, tt, 8, p[0], p[1], p[2], p[3], p[4], p[5], p[6], p[7]);
+    }
+}
+// Builds the wire image of an element with the real constructors.  Messages sit in
+// exact-size blocks; bundles are followed by one zero word (the element API takes
+// no length and finds a bundle's end by a zero size field - stated assumption).
+struct Built { std::unique_ptr<FlushBuf> fb; size_t len = 0; bool ok = true; };
+static Built build_elem(const AElem &e) {
+    Built b;
+    if (e.is_msg) { size_t need = build_a(e.m, NULL, 0); b.fb.reset(new FlushBuf(need)); b.len = build_a(e.m, (char *)b.fb->p, need); b.ok = b.len == need; return b; }
+    std::vector<Built> ks; std::vector<const char *> ps; size_t need = 16;
+    for (auto &k : e.kids) { ks.push_back(build_elem(k)); if (!ks.back().ok) b.ok = false; need += 4 + ks.back().len; }
+    for (auto &k : ks) ps.push_back((const char *)k.fb->p);
+    b.fb.reset(new FlushBuf(need + 4)); memset(b.fb->p, 0, need + 4);
+    b.len = call_bundle((char *)b.fb->p, need, e.tt, ps); if (b.len != need) b.ok = false;
+    return b;
+}
+static void do_bundle(const AElem &top, FILE *out) {
+    JW w; w.obj().kstr("k", "bundle").key("tt").limbs64(top.tt); w.key("elems").arr(); for (auto &k : top.kids) elem_to_json(w, k); w.end_arr();
+    int sig = vg_run(30, [&] {
+        std::vector<Built> ks; std::vector<const char *> ps; size_t need = 16; bool kids_ok = true;
+        for (auto &k : top.kids) { ks.push_back(build_elem(k)); kids_ok = kids_ok && ks.back().ok; need += 4 + ks.back().len; }
+        for (auto &k : ks) ps.push_back((const char *)k.fb->p);
+        w.kbool("kids_ok", kids_ok).knum("asan_build", vg_asan_hits);
+        w.key("msg_is_bundle").arr(); for (size_t i = 0; i < ks.size(); ++i) if (top.kids[i].is_msg) w.boolean(rtosc_bundle_p(ps[i]) != 0); w.end_arr();
+        // reference image in an exact-size block, then the decomposition API on it
+        int h0 = vg_asan_hits;
+        FlushBuf ref(need); size_t rr = call_bundle((char *)ref.p, need, top.tt, ps);
+        w.knum("ret_big", (long long)rr).kbytes("bytes", ref.p, std::min(rr, need));
+        const char *b = (const char *)ref.p;
+        if (rr == need) {
+            w.kbool("acc", true).kbool("is_bundle", rtosc_bundle_p(b) != 0);
+            size_t ne = rtosc_bundle_elements(b, need); w.knum("nelems", (long long)ne);
+            w.key("sizes").arr(); for (size_t i = 0; i < top.kids.size(); ++i) w.num((long long)rtosc_bundle_size(b, i)); w.end_arr();
+            w.key("offs").arr(); for (size_t i = 0; i < top.kids.size(); ++i) { const char *f = rtosc_bundle_fetch(b, i); w.num(f ? (long long)(f - b) : -1); } w.end_arr();
+            w.key("timetag").limbs64(rtosc_bundle_timetag(b));
+            w.knum("mlen", (long long)rtosc_message_length(b, need));
+        } else w.kbool("acc", false);
+        w.knum("asan_acc", vg_asan_hits - h0);
+        // capacity sweep (C02)
+        std::vector<long long> rets; std::vector<int> zero, eq, guard, asan;
+        for (size_t cap = 0; cap <= need + 8; ++cap) {
+            FlushBuf fb(cap + 8); memset(fb.p, 0xA5, cap + 8);
+            int h = vg_asan_hits; size_t r = call_bundle((char *)fb.p, cap, top.tt, ps);
+            rets.push_back((long long)r);
+            bool z = true; for (size_t i = 0; i < cap; ++i) if (fb.p[i]) z = false; zero.push_back(z);
+            eq.push_back(r <= cap && r == rr && !memcmp(fb.p, ref.p, r));
+            bool g = true; for (size_t i = cap; i < cap + 8; ++i) if (fb.p[i] != 0xA5) g = false; guard.push_back(g);
+            asan.push_back(vg_asan_hits - h);
+        }
+        w.key("rets").arr(); for (auto x : rets) w.num(x); w.end_arr();
+        w.key("zero").arr(); for (auto x : zero) w.boolean(x); w.end_arr();
+        w.key("eq").arr(); for (auto x : eq) w.boolean(x); w.end_arr();
+        w.key("guard").arr(); for (auto x : guard) w.boolean(x); w.end_arr();
+        w.key("asan").arr(); for (auto x : asan) w.num(x); w.end_arr();
+    });
+    if (sig) { JW e; e.obj().kstr("k", "bundle").key("tt").limbs64(top.tt); e.key("elems").arr(); for (auto &k : top.kids) elem_to_json(e, k); e.end_arr(); e.knum("sig", sig).kstr("asan_what", vg_asan_first).end_obj(); fprintf(out, "%s\n", e.s.c_str()); return; }
+    w.knum("sig", 0).kstr("asan_what", vg_asan_first).end_obj();
+    fprintf(out, "%s\n", w.s.c_str());
+}
+static AElem random_elem(MsgGen &g, int depth, bool top) {
+    AElem e;
+    if (!top && (depth == 0 || g.R(3))) { e.is_msg = true; e.m = g.msg(4, 9, 9); return e; }
+    e.is_msg = false; e.tt = g.bits64(); if (g.R(4) == 0) e.tt = 1;
+    unsigned n = (unsigned)g.R(top ? 9 : 4);
+    for (unsigned i = 0; i < n; ++i) e.kids.push_back(random_elem(g, depth - 1, false));
+    return e;
 }
 
 int main(int argc, char **argv) {
@@ -121,6 +215,7 @@ int main(int argc, char **argv) {
         while (read_line(f, line)) { if (line.empty()) continue; J j = jparse(line);
             if (mode == "msg") do_msg(amsg_from_json(j), out);
             else if (mode == "cap") do_cap(amsg_from_json(j), out);
+            else if (mode == "bundle") { AElem t; t.is_msg = false; t.tt = from_limbs64(j["tt"]); for (auto &k : j["elems"].a) t.kids.push_back(elem_from_json(k)); do_bundle(t, out); }
         }
         fclose(f);
     } else {
@@ -129,6 +224,7 @@ int main(int argc, char **argv) {
         for (long i = 0; i < count; ++i) {
             // sizes: mostly small, sometimes up to the property's stated bounds
             bool big = g.R(10) == 0;
+            if (mode == "bundle") { do_bundle(random_elem(g, (int)g.R(5), true), out); continue; }
             AMsg m = g.msg(big ? 40 : 6, big ? 64 : 9, big ? 40 : 9);
             if (mode == "msg") do_msg(m, out);
             else if (mode == "cap") do_cap(m, out);
